@@ -224,6 +224,23 @@ def run(ctx):
     if len(w) != 1 or f.describe_operand(w[0][1]["rv"]["o"]) != "next_source_location_bytes_start":
         r.violate("pending|saved", "feed_text does not remember the cursor for the final (flush) chunk of a text node", f.loc())
 
+    # ------------------------------------------------------------------ R14.7
+    r = ctx.rule("R14.7", "reported lengths are byte counts of the source, not of decoded text: every SourceLocation::from_start_len in the token types takes its length from the raw bytes (Spanned::len, the name/value byte slice, the fast path's identical bytes, or the decoder's `read` count)", "E-MIR operand shape", floor=5)
+    SHAPES = {
+        "Spanned::source_location": r"^Spanned::len\(self\)$",
+        "Attribute::name_source_location::{closure#0}": r"^\[T\]::len\(BytesCow::deref\[Deref\]\(arg1\._ref__self\.name\)\)$",
+        "Attribute::value_source_location::{closure#0}": r"^\[T\]::len\(BytesCow::deref\[Deref\]\(arg1\._ref__self\.value\)\)$",
+        "TextDecoder::feed_text": r"^str::len\(TextDecoder::split_utf8_start\(.*\) as Some\.0\.0\)$|Decoder::decode_to_str\(.*\)\.1$",
+    }
+    for f2 in mir.fns:
+        if mir.is_test_fn(f2) or f2.key not in SHAPES:
+            continue
+        for bi, t in f2.calls(r"SourceLocation::from_start_len$"):
+            d = f2.deep(t["args"][1])
+            r.inst(f2.key + "|len|%d" % bi, sample={"fn": f2.key, "length": d[-80:]})
+            if not re.search(SHAPES[f2.key], d):
+                r.violate(f2.key + "|len", f"{f2.key} reports a location whose length is `{d[-110:]}`: it must be the number of source bytes (a decoded string has a different length in legacy encodings, e.g. windows-1252 `café crème` is 10 bytes but 12 UTF-8 bytes), otherwise the range runs past the construct or overlaps the next one", f2.loc())
+
     ctx.not_decided += ["that the decoder's `read` counts are right (encoding_rs)", "non-overlap of successive tokens as a run-time relation"]
     return ("Offset-carrying clauses: where document offsets are added (lexeme, attributes), who advances the document offset and by what, "
             "type-driven Align completeness, length preservation of modified tokens, and the contiguity protocol of text-chunk locations "
